@@ -51,7 +51,8 @@ _DERIVE = ['to_frame', 'to_frame_go', 'to_frame_he', 'frame_init', 'framego_init
            'sort_columns', 'reindex', 'operator', 'iter_partial', 'set_index', 'group', 'transpose', 'columns_copy', 'columns_index_init',
            'columns_values', 'column_series', 'pickle', 'deepcopy', 'iloc_rows', 'drop', 'astype',
            # functional updates of a grow-only frame return a grow-only frame: it must not share the columns / blocks of its source
-           'assign', 'assign_iloc', 'assign_apply', 'fillna', 'shift', 'roll', 'insert_after', 'head', 'isna']
+           'assign', 'assign_iloc', 'assign_apply', 'fillna', 'shift', 'roll', 'insert_after', 'head', 'isna',
+           'round', 'abs_neg', 'mul_scalar', 'clip', 'he_to_go']
 _READS = ['columns_values', 'values', 'shape', 'repr', 'dtypes', 'columns_len', 'loc_last']
 
 
@@ -499,6 +500,17 @@ def _derive(ctx, f, model, what, seed):
             return [(what, f.head(1)), ('tail', f.tail(1))]
         if what == 'isna':
             return [(what, f.isna())]
+        if what == 'round':
+            return [(what, round(f, 1))]
+        if what == 'abs_neg':
+            return [('abs', abs(f)), ('neg', -f)]
+        if what == 'mul_scalar':
+            return [(what, f * 1)]
+        if what == 'clip':
+            return [(what, f.clip(lower=-10 ** 9))]
+        if what == 'he_to_go':
+            he = f.to_frame_he()
+            return [('to_frame_he', he), ('he.to_frame_go', he.to_frame_go()), ('he.to_frame', he.to_frame())]
     except TypeError as e:
         ctx.tally('derivation_raised', f'{what}:{type(e).__name__}')
     except Exception as e:
@@ -569,6 +581,17 @@ def _check_frame_history(case, ctx):
             ctx.tally('growth_kind', kind)
             if outcome == 'skip':
                 continue
+            early = None
+            if outcome == 'grown' and si % 2 == 0:
+                # derived from the grown frame before anything has read it: caches the growth left stale must not leak into it
+                how = ('to_frame', 'rename', 'to_frame_go', 'to_frame_he')[(si // 2) % 4]
+                try:
+                    early = (how, f.rename('early') if how == 'rename' else getattr(f, how)())
+                    ctx.tally('early_derivation', how)
+                except Exception as e:
+                    ctx.violation('container_unusable_after_growth_call', detail={'read': 'derive:' + how, 'exception': type(e).__name__, 'message': str(e)[:200]},
+                                  klass=dict(klass, stage=stage, exception=type(e).__name__))
+                    return
             if outcome == 'grown':
                 ctx.tally('outcome', 'grown')
                 grown += 1
@@ -578,6 +601,17 @@ def _check_frame_history(case, ctx):
                     model.add(lab, [v if v is not None else ('float', canon.NAN) for v in vals])
                 if not _coherent(ctx, f, k2, stage) or not _matches_model_after_growth(ctx, f, model, payload, k2, stage):
                     return
+                if early is not None:
+                    try:
+                        se, sf_ = canon.snap(early[1]), canon.snap(f)
+                        same = all(se[key] == sf_[key] for key in ('shape', 'cols', 'dtypes')) and se['columns']['labels'] == sf_['columns']['labels'] \
+                            and se['index']['labels'] == sf_['index']['labels']
+                        why = None if same else 'content differs'
+                    except Exception as e:
+                        same, why = False, f'{type(e).__name__}: {e}'
+                    if not same:
+                        ctx.violation('derived_right_after_growth_differs', detail={'derivation': early[0], 'why': str(why)[:300]}, klass=dict(k2, derived=early[0]))
+                        return
             elif outcome == 'rejected':
                 ctx.tally('outcome', 'rejected')
                 ctx.tally('rejection_class', type(payload).__name__)
